@@ -1658,6 +1658,313 @@ def _merge_by_value(hm, key):
     return out[0] if len(out) == 1 else None
 
 
+# ---- composite stream tasks (O18.6 / O18.7) and the holder's subclasses (O18.2) ---------------------------------------------------------------------------------------
+
+_TASK_MAKERS = ("create_task", "ensure_future")
+
+
+def _qualified(e, mod) -> str:
+    """dotted name of a callee with its head resolved through the module's imports (`create_task` imported from asyncio -> asyncio.create_task)"""
+    d = dotted(e) or ""
+    head = d.split(".")[0]
+    tgt = mod.imports.get(head)
+    return (tgt + d[len(head):]) if tgt else d
+
+
+def _stream_tasks(rs, mod) -> list:
+    """[(creating call, coroutine call)]: the calls in run_stream that start a stream as an asyncio task: <anything>.create_task(<coro>) / asyncio.ensure_future(<coro>) /
+    create_task imported by name, whose coroutine - seen through a single-assignment local - is a call of run_stream itself (a nested stream)"""
+    defs = local_defs(rs)
+    out = []
+    for n in walk_body(rs):
+        if isinstance(n, ast.Call) and last_attr(n.func) in _TASK_MAKERS and (isinstance(n.func, ast.Attribute) or _qualified(n.func, mod).startswith("asyncio.")):
+            a = n.args[0] if n.args else next((k.value for k in n.keywords if k.arg in ("coro", "coro_or_future")), None)
+            if a is None:
+                continue
+            c = source.inline_node(a, defs)
+            if isinstance(c, ast.Call) and isinstance(c.func, ast.Attribute) and c.func.attr == rs.name:
+                out.append((n, c))
+    return out
+
+
+def _task_context(call, rs, mod):
+    """How the task created by `call` gets its contextvars.Context: ('own', text) - no context= / None / a copy_context() taken for THIS task (in the argument itself or in a
+    local bound in the same iteration that creates the task); ('shared', text) - a Context object that other tasks of this level are (or can be) handed as well;
+    (None, text) - not traced."""
+    kw = next((k for k in call.keywords if k.arg == "context"), None)
+    if kw is None:
+        if any(k.arg is None for k in call.keywords):
+            return None, "keyword arguments handed on with **"
+        return "own", "no context= argument: the task runs in a copy of its creator's context"
+    v = kw.value
+    if isinstance(v, ast.Constant) and v.value is None:
+        return "own", "context=None"
+
+    def is_copy(e):
+        return isinstance(e, ast.Call) and not e.args and not e.keywords and _qualified(e.func, mod) == "contextvars.copy_context"
+
+    if is_copy(v):
+        return "own", "context=copy_context() evaluated per task"
+    if isinstance(v, ast.Name):
+        binds = [n for n in walk_body(rs) if isinstance(n, (ast.Assign, ast.AnnAssign)) and any(isinstance(t, ast.Name) and t.id == v.id for t in (n.targets if isinstance(n, ast.Assign) else [n.target]))]
+        if len(binds) == 1 and binds[0].value is not None and is_copy(binds[0].value):
+            same_iteration = source.enclosing(binds[0], _LOOPS) is source.enclosing(call, _LOOPS) and source.enclosing(call, _LOOPS) is not None
+            if same_iteration:
+                return "own", f"`{v.id}` is a copy_context() taken in the iteration that creates the task"
+            return "shared", f"`{v.id}` = copy_context() is taken once (line {binds[0].lineno}) and handed to every task created in the loop"
+        if len(binds) == 1 and binds[0].value is not None and not isinstance(binds[0].value, ast.Call) and source.enclosing(binds[0], _LOOPS) is None:
+            return "shared", f"`{v.id}` = {short(binds[0].value, 40)} is one Context object for all tasks"
+        return None, f"context={v.id}: where the Context object comes from could not be traced"
+    if isinstance(v, ast.Attribute):
+        return "shared", f"context={u(v)}: one Context object kept in an attribute for all tasks"
+    return None, f"context={short(v, 40)} could not be traced"
+
+
+def concurrent_streams(R, shared: bool):
+    """Two streams of one composite level run as tasks A and B inside a top-level request context; each wraps ONE sub-request in a request context of its own (the per-operation
+    wrapper). A starts first AND finishes first (wire 8.0 .. 10.0), B runs 9.0 .. 12.0 - the interleaving that is not LIFO. `shared`: both tasks run in ONE contextvars.Context
+    (one binding of the variable); else each task has a copy of its creator's context, as asyncio gives it by default. Returns the first defect as a text, or None: each
+    sub-request reads exactly its own span, the logical request 8.0 .. 12.0. Raises _Stuck / _Raises."""
+    life = _Life(R)
+    start, end = _wire(R)
+    top, tb, d0, _ = life.open()
+    cell = {"A": d0, "B": d0}
+    running = [None]
+
+    def switch(task):
+        if running[0] is not None:
+            for k in (cell if shared else [running[0]]):
+                cell[k] = life.cur
+        running[0] = task
+        life.cur = cell[task]
+
+    try:
+        switch("A")
+        ma, ab, da, _ = life.open()
+        switch("B")
+        mb, bb, db, _ = life.open()
+        switch("A")
+        start(life, 8.0)
+        switch("B")
+        start(life, 9.0)
+        switch("A")
+        end(life, 10.0)
+        got_a = life.timings(ab)
+        life.close(ma)
+        switch("B")
+        end(life, 12.0)
+        got_b = life.timings(bb)
+        life.close(mb)
+        switch("A")  # (whatever is left in the tasks' contexts is dropped with the tasks)
+    except _Raises as x:
+        if shared:
+            return f"the interleaving `A enters, B enters, A's request 8.0 .. 10.0, A exits, B's request 9.0 .. 12.0, B exits` fails in the shared context: {x}"
+        raise
+    life.cur = d0
+    got0 = life.timings(tb)
+    life.close(top)
+    for name, got, want in (("the sub-request of the stream that started first and ended first", got_a, (8.0, 10.0)), ("the sub-request of the other stream", got_b, (9.0, 12.0)),
+                            ("the logical request", got0, (8.0, 12.0))):
+        if got != want:
+            return f"{name} (wire {want[0]} .. {want[1]}) is recorded with {got[0]} .. {got[1]}"
+    return None
+
+
+def stream_task_rule(chk, rid, R, rs, mod):
+    tasks = _stream_tasks(rs, mod)
+    if not tasks:
+        nested = [n for n in walk_body(rs) if isinstance(n, ast.Call) and isinstance(n.func, ast.Attribute) and n.func.attr == rs.name]
+        if nested:
+            chk.unknown(rid, "composite: how a nested stream is started (asyncio.create_task / ensure_future of run_stream(...)) was not located", nested[0])
+        else:
+            chk.unknown(rid, "composite: run_stream starts no nested stream", rs)
+        return
+    for call, _ in tasks:
+        kind, how = _task_context(call, rs, mod)
+        if kind is None:
+            chk.unknown(rid, f"composite: the context the stream task runs in could not be traced ({how})", call)
+            continue
+        try:
+            try:
+                defect = concurrent_streams(R, shared=(kind == "shared"))
+            except _Defect as x:
+                defect = str(x)
+        except (_Stuck, _Raises) as x:
+            chk.unknown(rid, f"the life cycle of two concurrent streams could not be evaluated ({type(x).__name__[1:].lower()}: {x})", call)
+            continue
+        chk.ob(rid, "composite: every stream task runs in a contextvars.Context of its own (a copy of its creator's): two streams whose sub-requests do not finish in reverse "
+               "order of their start each read exactly their own span", defect is None, call, how + ("" if defect is None else f" — {defect}"),
+               key=f"{_R}:Composite.{rs.name}:stream-task-context")
+
+
+_STREAM_FAILURES = ("elastic_transport.TransportError", "elasticsearch.ApiError")  # what a failing sub-request raises and execute_single turns into a sample (on-error=continue)
+
+
+def _absorbed(repo, hier, cands) -> list:
+    """those of the exception classes `cands` that an absorbing handler of the executor's execute_single catches: the composite's failure still yields a sample"""
+    from sa.exc import handler_type_names
+
+    drv = repo.module(_D)
+    es = drv.func("execute_single")
+    g = cfg_of(es)
+    out = []
+    for t in (n for n in walk_body(es) if isinstance(n, ast.Try)):
+        for h in t.handlers:
+            if any(g.exit.id in g.reachable([x]) for x in g.by_ast.get(id(h), [])):
+                out += [c for c in cands if c not in out and hier.catches(handler_type_names(h, drv), c)]
+    return out
+
+
+def _whole_list(e, names) -> bool:
+    """e denotes every element of one of the lists `names`: the list itself, list(L) / tuple(L) / reversed(L) / L.copy() / L[:]"""
+    if isinstance(e, ast.Name):
+        return e.id in names
+    if isinstance(e, ast.Call) and isinstance(e.func, ast.Name) and e.func.id in ("list", "tuple", "reversed") and len(e.args) == 1 and not e.keywords:
+        return _whole_list(e.args[0], names)
+    if isinstance(e, ast.Call) and isinstance(e.func, ast.Attribute) and e.func.attr == "copy" and not e.args:
+        return _whole_list(e.func.value, names)
+    if isinstance(e, ast.Subscript) and isinstance(e.slice, ast.Slice) and e.slice.lower is None and e.slice.upper is None and e.slice.step is None:
+        return _whole_list(e.value, names)
+    return False
+
+
+def _cancel_all_sites(fn, names, cls_methods, depth=0):
+    """(statements of fn that cancel EVERY not yet finished task of the lists `names`, oddities): a loop / comprehension over the whole list whose body calls <element>.cancel()
+    guarded by nothing but `not <element>.done()`; or a call self.m(L) of a helper of the class that does so with its parameter"""
+    sites, odd = [], []
+    for n in walk_body(fn):
+        if isinstance(n, ast.Call) and isinstance(n.func, ast.Attribute) and n.func.attr == "cancel" and isinstance(n.func.value, ast.Name) and not n.args:
+            x = n.func.value.id
+            loop = next((a for a in source.ancestors(n) if (isinstance(a, (ast.For, ast.AsyncFor)) and isinstance(a.target, ast.Name) and a.target.id == x)
+                         or (isinstance(a, (ast.ListComp, ast.GeneratorExp, ast.SetComp)) and any(isinstance(gn.target, ast.Name) and gn.target.id == x for gn in a.generators))), None)
+            if loop is None:
+                continue
+            it = loop.iter if isinstance(loop, (ast.For, ast.AsyncFor)) else next(gn.iter for gn in loop.generators if isinstance(gn.target, ast.Name) and gn.target.id == x)
+            if not any(isinstance(m, ast.Name) and m.id in names for m in ast.walk(it)):
+                continue
+            if not _whole_list(it, names):
+                odd.append((n, f"the clean-up iterates over `{short(it, 40)}`, not over the whole task list"))
+                continue
+            gs = guards(n, stop=loop, path_sensitive=True) + ([(c, True) for gn in loop.generators for c in gn.ifs] if not isinstance(loop, (ast.For, ast.AsyncFor)) else [])
+            bad = [t for t, pol in gs if not ((u(t) == f"{x}.done()" and not pol) or (u(t) == f"not {x}.done()" and pol))]
+            if bad:
+                odd.append((n, f"`{x}.cancel()` is guarded by `{short(bad[0], 40)}`"))
+                continue
+            sites.append(loop if isinstance(loop, (ast.For, ast.AsyncFor)) else source.enclosing_stmt(loop))
+        elif isinstance(n, ast.Call) and depth < 2 and isinstance(n.func, ast.Attribute) and isinstance(n.func.value, ast.Name) and n.func.value.id in ("self", "cls") \
+                and n.func.attr in cls_methods and cls_methods[n.func.attr] is not fn:
+            callee = cls_methods[n.func.attr]
+            try:
+                b = source.bind_args(n, callee)
+            except Exception:  # noqa: BLE001 - a call that does not fit the helper's signature is not a clean-up call we understand
+                continue
+            pn = {k for k, v in b.items() if isinstance(v, ast.Name) and v.id in names}
+            if pn:
+                s2, o2 = _cancel_all_sites(callee, pn, cls_methods, depth + 1)
+                if s2:
+                    sites.append(source.enclosing_stmt(n))
+                odd += o2
+    return sites, odd
+
+
+def stream_failure_rule(chk, rid, repo, rs, mod, cls_methods):
+    """A stream task that fails ends its composite (the failure surfaces where the composite awaits its stream tasks); the sibling tasks must not go on issuing sub-requests on
+    behalf of a logical request whose sample has already been taken. Decided on the CFG of run_stream, per await of the stream tasks and per exception class of a failing
+    sub-request that still yields a sample: the first interceptor of the class among the exceptional successors of the await must lead through a statement that cancels every
+    unfinished task of the list before the failure leaves run_stream. An await of the tasks that lies outside every clean-up region (F60: the trailing drain after the handler)
+    is falsified like one whose handler does not catch the class."""
+    from sa.exc import Hierarchy, handler_type_names
+
+    tasks = _stream_tasks(rs, mod)
+    names = set()
+    for call, _ in tasks:
+        p_ = source.parent(call)
+        if isinstance(p_, ast.Call) and isinstance(p_.func, ast.Attribute) and p_.func.attr == "append" and isinstance(p_.func.value, ast.Name) and call in p_.args:
+            names.add(p_.func.value.id)
+    if not names:
+        chk.unknown(rid, "composite: the list that collects the stream tasks (<list>.append(<task>)) was not located in run_stream", rs)
+        return
+    drains = [n for n in walk_body(rs) if isinstance(n, ast.Await) and any(isinstance(m, ast.Name) and m.id in names and isinstance(m.ctx, ast.Load) for m in ast.walk(n.value))]
+    if not drains:
+        chk.unknown(rid, f"composite: no await of the stream tasks ({sorted(names)}) located in run_stream", rs)
+        return
+    hier = Hierarchy()
+    classes = _absorbed(repo, hier, _STREAM_FAILURES)
+    if not classes:
+        raise AnchorMissing("execute_single: no absorbing handler for the failure classes of a sub-request (which failed composites still produce a sample?)")
+    sites, odd = _cancel_all_sites(rs, names, cls_methods)
+    g = cfg_of(rs)
+    through = [x for s in sites for x in g.nodes_of(s)]
+    labels = ['between-items' if source.enclosing(d, _LOOPS) is not None else 'trailing' for d in drains]  # awaited before the next item of the stream / after the last one
+    for i, d in enumerate(drains):
+        label = labels[i] + (f'#{labels[:i].count(labels[i]) + 1}' if labels.count(labels[i]) > 1 else '')
+        dn = g.node_of(d)
+        exc_succ = [g.nodes[y] for (y, lab) in g.succ[dn.id] if not g.normal_edge(dn.id, y, lab)]
+        for c in classes:
+            first = None
+            for x in exc_succ:
+                if x.kind == "except" and not hier.catches(handler_type_names(x.ast, mod), c):
+                    continue
+                first = x
+                break
+            where = f"{_R}:Composite.{rs.name}:siblings-cancelled:{label}:{c}"
+            inst = f"composite: when a stream task fails with {c} where the composite awaits its streams, every unfinished sibling task is cancelled before the failure leaves run_stream"
+            if first is None or first is g.raise_exit:
+                chk.ob(rid, inst, False, d, f"no handler / finally of run_stream intercepts a {c} raised by the await at line {d.lineno} "
+                       + (f"(handlers: {[u(x.ast.type) if x.ast.type is not None else 'bare' for x in exc_succ if x.kind == 'except']})" if any(x.kind == 'except' for x in exc_succ) else
+                          "(the await is outside every clean-up region of run_stream)") + ": the sibling streams keep sending sub-requests "
+                       "after the composite's end was recorded", key=where)
+                continue
+            if not through and odd:
+                chk.unknown(rid, f"composite: the clean-up of the stream tasks was not recognised ({odd[0][1]})", odd[0][0])
+                continue
+            away = g.reachable([first], avoid=through)
+            ok = bool(through) and g.raise_exit.id not in away and g.exit.id not in away
+            chk.ob(rid, inst, ok, d, f"await at line {d.lineno}, intercepted at line {getattr(first.ast, 'lineno', '?')}; {len(sites)} cancel-all statement(s)"
+                   + ("" if ok else " — a way from the interceptor out of run_stream passes no statement that cancels the unfinished tasks"), key=where)
+
+
+def holder_variable_rule(chk, rid, repo, R):
+    """ONE ContextVar for the whole process: the holder's methods are classmethods that resolve `cls.<variable>`, while other code addresses the holder by its base class
+    (the node-level failure hook) or by a subclass (the client, the trace hooks, the serializer). All of them reach the same timing state only if no class deriving from the
+    holder, and no assignment anywhere in the package, rebinds the variable's attribute to another object."""
+    cv, base = R.cv, R.RCH.name
+    for rel in repo.package_files("esrally"):
+        try:
+            text = repo.text(rel)
+        except AnchorMissing:
+            continue
+        if cv not in text and base not in text:
+            continue
+        mod = repo.module(rel)
+        holders = _holder_names(mod) | ({base} if rel == _C else set())
+        if not holders:
+            continue
+        chk.use(mod)
+
+        def same_variable(v, _holders=holders):
+            return isinstance(v, ast.Attribute) and v.attr == cv and last_attr(v.value) in _holders | {"cls", "self"}
+
+        for c in mod.classes():
+            if c.name not in holders or (rel == _C and c is R.RCH):
+                continue
+            rebinds = [n for n in c.body if isinstance(n, (ast.Assign, ast.AnnAssign)) and n.value is not None
+                       and any(isinstance(t, ast.Name) and t.id == cv for t in (n.targets if isinstance(n, ast.Assign) else [n.target]))]
+            bad = [n for n in rebinds if not same_variable(n.value)]
+            chk.ob(rid, f"{c.name} (a request context holder) reaches the timing state through the holder's own ContextVar: its class body does not rebind `{cv}`", not bad,
+                   bad[0] if bad else c, "" if not bad else f"`{short(bad[0], 70)}`: methods resolved through {c.name} (cls.{cv}) and code that addresses {base} directly "
+                   f"(the node-level failure hook ends a failed request with {base}.on_request_end()) now use two different variables - the end of a request recorded through "
+                   "one is invisible through the other", key=f"{rel}:{c.name}:holder-variable")
+        for n in ast.walk(mod.tree):
+            tg = n.targets if isinstance(n, ast.Assign) else [n.target] if isinstance(n, (ast.AnnAssign, ast.AugAssign)) else []
+            for t in tg:
+                if isinstance(t, ast.Attribute) and t.attr == cv and (last_attr(t.value) in holders or (last_attr(t.value) == "cls" and getattr(source.enclosing(n, ast.ClassDef), "name", None) in holders)):
+                    if getattr(n, "value", None) is not None and same_variable(n.value):
+                        continue
+                    chk.ob(rid, f"no assignment rebinds the request context variable of a holder class (`{u(t)}`)", False, n,
+                           f"`{short(n, 70)}`: from here on {u(t.value)} and the other holder classes use different variables", key=f"{rel}:{u(t)}:holder-variable-assigned")
+
+
 def run(chk):
     repo = chk.repo
     ctx, run_, drv = repo.module(_C), repo.module(_R), repo.module(_D)
@@ -1674,6 +1981,10 @@ def run(chk):
         "The life cycle of the context OBJECTS (factory, __init__, __enter__, wire requests, __exit__; the ContextVar modelled per asyncio task) is run abstractly for "
         "consecutive, nested and concurrent requests - the manager obtained the way the executor's loop obtains it - : every entry installs a dict object of its own, so "
         "that a sub-request task that outlives its request cannot write into the client's next request, and every context reads exactly its own span. "
+        "No class deriving from the holder (and no assignment in the package) rebinds the holder's context variable: base class and subclasses resolve one variable object. "
+        "The composite's stream tasks: each runs in a contextvars.Context of its own (how create_task is handed its context is traced; the life cycle of two concurrent "
+        "streams that do not finish in LIFO order is run abstractly with the binding shared or per task accordingly), and a stream failure that still yields a sample passes, "
+        "on the CFG of run_stream, a statement cancelling every unfinished sibling task before it leaves (an await of the tasks outside every clean-up region is falsified: F60). "
         "Roles (holder attribute, dict / token attributes, merge methods, context factory, sampler call) are derived from data flow, not from names of locals or attributes."
     )
     chk.not_decided = "asyncio scheduling, aiohttp trace timing (which signals aiohttp emits when), clock behaviour."
@@ -1796,6 +2107,7 @@ def run(chk):
         cvars = [n for n in RCH.body if isinstance(n, ast.Assign) and isinstance(n.value, ast.Call) and last_attr(n.value.func) == "ContextVar"]
         chk.ob("O18.2", "one ContextVar holds the request context", len(cvars) == 1, cvars[0] if cvars else RCH, f"{len(cvars)} ContextVar(s)")
         cv = R.cv
+        holder_variable_rule(chk, "O18.2", repo, R)  # ... and nothing derives a second one: every holder class resolves the same variable object
         mut = [n for n in list(RCH.body) + list(ctx.tree.body) if isinstance(n, ast.Assign) and isinstance(n.value, (ast.Dict, ast.List, ast.Set)) or
                (isinstance(n, ast.Assign) and isinstance(n.value, ast.Call) and dotted(n.value.func) in ("dict", "list", "set", "collections.defaultdict"))]
         mut = [n for n in mut if _used_as_state(n, ctx)]  # a literal table that is only ever read (membership, iteration, lookup) is not state
@@ -2101,7 +2413,33 @@ def run(chk):
         if not ct:
             chk.adv("O18.4", "composite streams are no longer started with asyncio.create_task inside run_stream (context chaining to the request's dict not established this way)", rs)
 
-    for rid, section in (("O18.1", o18_1), ("O18.5", o18_5), ("O18.2", o18_2), ("O18.3", o18_3)):
+    def _composite():
+        CO = run_.cls("Composite")
+        rs = run_.methods(CO).get("run_stream")
+        if rs is None:
+            raise AnchorMissing("Composite.run_stream")
+        return rs, run_.methods(CO)
+
+    def o18_6():
+        # ---- O18.6 concurrent streams do not share the binding of the context variable ------------------------------------------------------------
+        chk.rule("O18.6", "every stream of a composite that runs as an asyncio task runs in a contextvars.Context of its own (a copy of its creator's context, sharing only the "
+                 "enclosing request's dict): the request context a stream's sub-request installs and the token it resets are never seen by a sibling stream (the life cycle of "
+                 "two concurrent streams is run abstractly with the binding as the composite creates its tasks)", 1,
+                 "two concurrent sub-requests that do not finish in reverse order of their start: the wire callbacks of one write into the other's context, a sub-request's "
+                 "timing contains its sibling's end or is dropped")
+        rs, _ = _composite()
+        stream_task_rule(chk, "O18.6", R, rs, run_)
+
+    def o18_7():
+        # ---- O18.7 no stream outlives the composite that failed --------------------------------------------------------------------------------------
+        chk.rule("O18.7", "when a stream task of a composite fails with an exception that still yields a sample, every unfinished sibling task is cancelled before the failure "
+                 "leaves run_stream: no HTTP request is issued on behalf of a logical request after its end was recorded", 4,
+                 "one of several concurrent streams fails (on-error=continue): the composite's sample is taken, the sibling streams keep sending their remaining sub-requests "
+                 "- the recorded end is not the latest end of the requests issued on the composite's behalf")
+        rs, cm = _composite()
+        stream_failure_rule(chk, "O18.7", repo, rs, run_, cm)
+
+    for rid, section in (("O18.1", o18_1), ("O18.5", o18_5), ("O18.2", o18_2), ("O18.3", o18_3), ("O18.6", o18_6), ("O18.7", o18_7)):
         try:
             section()
         except AnchorMissing as e:
@@ -2464,4 +2802,64 @@ VARIANTS += [
     [V("new manager per request bound to a local inside the loop, the init method builds the dict with dict()", "keep", _D, _WITH,
        "                manager = self.es[\"default\"].new_request_context()\n                with manager as request_context:\n"),
      V("", "keep", _C, "        ctx = {}\n", "        ctx = dict()\n")],
+]
+
+# ---- round 6: C18-m16 (second context variable in a holder subclass), C18-m17 (failing stream no longer stops its siblings), C18-m18 (stream tasks share one Context) ----
+_CLIENT_CLS = "class RallyAsyncElasticsearch(AsyncElasticsearch, RequestContextHolder):\n"
+_CLIENT_INIT = "        distribution_version = kwargs.pop(\"distribution_version\", None)\n"
+_RS_HEAD = "        streams = []\n        timings = []\n        try:\n"
+_RS_TASK = "                    streams.append(asyncio.create_task(self.run_stream(es, item[\"stream\"], connection_limit)))\n"
+_RS_EXCEPT = "        except BaseException:\n            # stop all already created tasks in case of exceptions\n"
+_RS_CANCEL = "            for s in streams:\n                if not s.done():\n                    s.cancel()\n            raise\n"
+VARIANTS += [
+    V("seed C18-m16: the client class declares a request context variable of its own", "break", _A, _CLIENT_CLS,
+      _CLIENT_CLS + "    request_context = contextvars.ContextVar(\"rally_async_request_context\")\n\n", "O18.2"),
+    V("m16 invariant: every client instance rebinds the class's variable", "break", _A, _CLIENT_INIT,
+      "        RallyAsyncElasticsearch.request_context = contextvars.ContextVar(\"per_client_request_context\")\n" + _CLIENT_INIT, "O18.2"),
+    V("m16 invariant: a fresh variable annotated and built through a factory call", "break", _A, _CLIENT_CLS,
+      _CLIENT_CLS + "    request_context: \"contextvars.ContextVar\" = contextvars.ContextVar(\"client\", default=None)\n\n", "O18.2"),
+    V("the client class re-exports the holder's variable under the same name (the same object)", "keep", _A, _CLIENT_CLS,
+      _CLIENT_CLS + "    request_context = RequestContextHolder.request_context\n\n"),
+    V("the client class only annotates the inherited variable", "keep", _A, _CLIENT_CLS, _CLIENT_CLS + "    request_context: \"contextvars.ContextVar\"\n\n"),
+    V("seed C18-m17: the clean-up handler of run_stream only handles the composite's own cancellation", "break", _R, _RS_EXCEPT,
+      "        except asyncio.CancelledError:\n            # gather() takes care of the other streams when one of them fails\n", "O18.7"),
+    V("m17 invariant: clean-up only for rally's own errors (a transport / API error of a stream passes it by)", "break", _R, _RS_EXCEPT, "        except exceptions.RallyError:\n", "O18.7"),
+    V("m17 invariant: the handler re-raises without cancelling anything", "break", _R, _RS_CANCEL, "            raise\n", "O18.7"),
+    V("m17 invariant: the handler returns what it has before it gets to the tasks", "break", _R, _RS_EXCEPT, _RS_EXCEPT + "            if timings:\n                raise\n", "O18.7"),
+    V("clean-up for every Exception (the composite's own cancellation reaches the stream tasks through gather())", "keep", _R, _RS_EXCEPT, "        except Exception:\n"),
+    V("clean-up as a comprehension over a copy of the task list", "keep", _R, _RS_CANCEL, "            [s.cancel() for s in list(streams) if not s.done()]\n            raise\n"),
+    [V("clean-up extracted into a helper of the composite", "keep", _R, _RS_CANCEL, "            self._cancel_all(streams)\n            raise\n"),
+     V("", "keep", _R, "    async def run_stream(self, es, stream, connection_limit):\n",
+       "    @staticmethod\n    def _cancel_all(tasks):\n        for t in tasks:\n            if t.done():\n                continue\n            t.cancel()\n\n"
+       "    async def run_stream(self, es, stream, connection_limit):\n")],
+    [V("seed C18-m18: one copy_context() per run_stream call handed to every stream task", "break", _R, _RS_HEAD, "        streams = []\n        timings = []\n        stream_context = contextvars.copy_context()\n        try:\n", "O18.6"),
+     V("", "break", _R, _RS_TASK, _RS_TASK.replace("connection_limit)))", "connection_limit), context=stream_context))"))],
+    V("m18 invariant: the Context object of the level is kept in an attribute of the runner", "break", _R, _RS_TASK, _RS_TASK.replace("connection_limit)))", "connection_limit), context=self.stream_context))"), "O18.6"),
+    [V("m18 invariant: the shared Context is taken by the event loop's create_task", "break", _R, _RS_HEAD, "        streams = []\n        timings = []\n        level = contextvars.copy_context()\n        try:\n", "O18.6"),
+     V("", "break", _R, _RS_TASK, "                    streams.append(asyncio.get_running_loop().create_task(self.run_stream(es, item[\"stream\"], connection_limit), context=level))\n")],
+    V("every stream task is handed a copy of the context taken for it", "keep", _R, _RS_TASK, _RS_TASK.replace("connection_limit)))", "connection_limit), context=contextvars.copy_context()))")),
+    V("the copy for the task is taken one line earlier, in the same iteration", "keep", _R, _RS_TASK,
+      "                    own = contextvars.copy_context()\n" + _RS_TASK.replace("connection_limit)))", "connection_limit), context=own))")),
+    V("stream coroutine through a local, task made with ensure_future", "keep", _R, _RS_TASK,
+      "                    nested = self.run_stream(es, item[\"stream\"], connection_limit)\n                    streams.append(asyncio.ensure_future(nested))\n"),
+]
+
+# ---- F60 (a869558): the trailing drain of run_stream sits inside the try block whose handler cancels the stream tasks ----
+_F60_DRAIN = ("            # complete any outstanding streams\n            if streams:\n                streams_timings = await asyncio.gather(*streams)\n"
+              "                for stream_timings in streams_timings:\n                    timings += stream_timings\n")
+_F60_DRAIN_OUT = "\n".join(l[4:] for l in _F60_DRAIN.split("\n"))
+_F60_END = "            raise\n        return timings\n"
+VARIANTS += [
+    [V("F60 reverted: the trailing drain moved back after the clean-up handler", "break", _R, _F60_DRAIN, "", "O18.7"),
+     V("", "break", _R, _F60_END, "            raise\n" + _F60_DRAIN_OUT + "        return timings\n")],
+    [V("F60 invariant: trailing drain in a second try (after the handler) that only logs and re-raises", "break", _R, _F60_DRAIN, "", "O18.7"),
+     V("", "break", _R, _F60_END, "            raise\n        try:\n" + _F60_DRAIN + "        except Exception:\n            self.logger.exception(\"A stream of the composite has failed.\")\n            raise\n        return timings\n")],
+    V("F60 invariant: the item loop split off into a try of its own that only handles the composite's own cancellation (its drains lose the clean-up)", "break", _R, _F60_DRAIN,
+      "            pass\n        except asyncio.CancelledError:\n            for s in streams:\n                s.cancel()\n            raise\n        try:\n" + _F60_DRAIN, "O18.7"),
+    [V("trailing drain inside the try through a helper that awaits gather", "keep", _R, "            if streams:\n                streams_timings = await asyncio.gather(*streams)\n                for stream_timings in streams_timings:\n                    timings += stream_timings\n        except",
+       "            if streams:\n                streams_timings = await self._drain(streams)\n                for stream_timings in streams_timings:\n                    timings += stream_timings\n        except"),
+     V("", "keep", _R, "    async def run_stream(self, es, stream, connection_limit):\n",
+       "    @staticmethod\n    async def _drain(tasks):\n        return await asyncio.gather(*tasks)\n\n    async def run_stream(self, es, stream, connection_limit):\n")],
+    V("trailing drain in a nested try that logs and re-raises INTO the clean-up handler", "keep", _R, _F60_DRAIN,
+      "            try:\n" + "".join("    " + l + "\n" for l in _F60_DRAIN.split("\n") if l) + "            except Exception:\n                self.logger.exception(\"A stream of the composite has failed.\")\n                raise\n"),
 ]
